@@ -549,6 +549,10 @@ class C15(Check):
                 p["repeat_identical"] = min(p["repeat_identical"], 30)
         if target != "gen":
             p["thread_diff"] = {"engine": "compiled" if rng.random() < 0.3 else "ir", "threads": rng.choice([2, 3, 4, 4, 8])}
+            if target == "interaction":
+                # the interactor's documented default is num_threads=False (serial): compare against that, too
+                p["thread_diff"]["serial_default"] = rng.random() < 0.5
+                p["two_bodies"] = rng.random() < 0.5
             if target == "solver" and rng.random() < 0.5:
                 # mid-sized buffers: size/thread-count thresholds sit between tiny and large
                 p["shape"] = list(rng.choice([(40, 48), (24, 32)] if p["dim"] == 2 else [(10, 12, 14)]))
@@ -614,8 +618,9 @@ class C15(Check):
             seams.kernel_factory = (lambda k: irsim.SimKernel(k)) if engine == "ir" else None
             attempts = 1 if engine == "ir" else 2
             bad = None
+            base_nt = False if program["thread_diff"].get("serial_default") else 1
             for _ in range(attempts):
-                a, b = run(1), run(T)
+                a, b = run(base_nt), run(T)
                 bad = [k for k in sorted(a) if a[k].tobytes() != b[k].tobytes()]
                 if not bad:
                     break
@@ -626,7 +631,7 @@ class C15(Check):
                 res.violation(
                     "thread_count_dependence",
                     {"target": program["target"], "engine": engine, "key": k0},
-                    f"{program['target']} with num_threads=1 and num_threads={T} ({engine} kernels) gives bitwise different '{k0}' (max dev {dev:.3e}; differing outputs: {bad})",
+                    f"{program['target']} with num_threads={base_nt} and num_threads={T} ({engine} kernels) gives bitwise different '{k0}' (max dev {dev:.3e}; differing outputs: {bad})",
                 )
         finally:
             irsim.SimKernel.runtime, seams.kernel_factory, _alias["enabled"] = saved_rt, saved_factory, saved_alias
@@ -882,6 +887,9 @@ class C15(Check):
         flow = self._make_flow(q, dim)
         flow.velocity_field[...] = prng.smooth_field(p["sub"], flow.velocity_field.shape, flow.real_t, 1.0, "u")
         body = self._body(p, flow, dim, p["reset"])
+        if p.get("two_bodies") and not p["reset"]:
+            other = self._body(dict(p, sub=p["sub"] + 5, n_markers=3), flow, dim, False)
+            other()  # another body has already spread onto the shared field
         for i in range(p["evals"]):
             self._spread_both_orders(body, flow.eul_grid_forcing_field, res)
             body.time_step(1e-2)
